@@ -585,6 +585,10 @@ func derivesFrom(info *types.Info, sc *fnScope, val ast.Expr, recv types.Object,
 			return false
 		}
 		switch n := n.(type) {
+		case *ast.CallExpr:
+			if b := builtinName(info, n); b == "len" || b == "cap" {
+				return false // a length says nothing about the element's value
+			}
 		case *ast.Ident:
 			o := objOf(info, n)
 			if o == nil {
